@@ -301,7 +301,12 @@ SIB_RENAMES = (('path_offsets', 'offsets'), ('path_half_widths', 'half_widths'),
 
 def shared_defs(f, centre):
     """definitions of the look-ahead / bend-room variables inside the main spine loop, with the guard of compound updates"""
-    room = next((i for i in f.walk() if i.k == 'IfStmt' and 'len_required > len_prev' in norm(i.child('cond').text())), None)
+    # the bend-room test: the `if` that compares the length a bend needs with the straight length before the corner (`len_prev`) and after it
+    def _is_room(i):
+        c = i.child('cond')
+        cmps = [x for x in c.walk() if x.k == 'BinaryOperator' and x.op in ('<', '>', '<=', '>=')]
+        return len(cmps) >= 2 and any(any(y.k == 'DeclRefExpr' and y.n == 'len_prev' for y in x.walk()) for x in cmps)
+    room = next((i for i in f.walk() if i.k == 'IfStmt' and _is_room(i)), None)
     if room is None:
         raise AnalysisBroken('%s: bend-room test not found' % f.qn)
     loop = next((a for a in room.ancestors() if a.k == 'ForStmt'), None)
